@@ -100,6 +100,8 @@ struct ClientState {
     /// the client's cache may hold a mixture of two lives of the file (a call of its spanned a
     /// re-creation after third-party damage)
     tainted: bool,
+    /// the file this client may have mapped was removed (it no longer sees the daemon's updates)
+    orphaned: bool,
 }
 
 pub struct BState {
@@ -176,6 +178,15 @@ impl BState {
     // publication oracles (C07 C08 C09 C10 C12 C13)
     // ------------------------------------------------------------------------------------
 
+    /// The segment file is about to be removed by a third party: every client that exists by now
+    /// may be left with the old file.
+    pub fn file_removed(&mut self) {
+        self.damaged_ever = true;
+        for c in self.clients.iter_mut() {
+            c.orphaned = true;
+        }
+    }
+
     fn on_publication(&mut self, di: usize, rec: PRecord, now: i64) {
         let drift = self.cfg.drift_ppb;
         let phc_cfg = self.cfg.phc;
@@ -211,10 +222,23 @@ impl BState {
         match kind {
             MsgKind::Data => {
                 if let Some(t) = &tracking {
-                    let cls = systime.and_then(|st| classify_report(t.leap, t.ref_time_ns, st, t.interval));
+                    let mut systime = systime;
+                    let mut cls = systime.and_then(|st| classify_report(t.leap, t.ref_time_ns, st, t.interval));
                     if systime.is_none() {
-                        // the staleness test did not read the clock: cannot place the report's age
-                        judge_status = false;
+                        // the staleness test did not read the clock: the report's age can only be
+                        // placed between its reception and this publication; judged when the class
+                        // is the same at both ends
+                        let st_hi = now as i128 + self.world.lock().unwrap_or_else(|e| e.into_inner()).rt_off(now) as i128;
+                        // (the clock error changes by far less than a millisecond in between)
+                        let st_lo = st_hi - (now - poll.r_at).max(0) as i128 - 1_000_000;
+                        let (c_lo, c_hi) = (classify_report(t.leap, t.ref_time_ns, st_lo, t.interval), classify_report(t.leap, t.ref_time_ns, st_hi, t.interval));
+                        if c_lo.is_some() && c_lo == c_hi {
+                            cls = c_lo;
+                            systime = Some(st_hi);
+                            probes.push("probe.report_classified_without_a_clock_read");
+                        } else {
+                            judge_status = false;
+                        }
                     }
                     let rec_status = Status::from_i32(rec.status).unwrap_or(Status::Unknown);
                     let cls_eff = match cls {
@@ -681,7 +705,7 @@ impl BState {
             // C04b (daemon level): an attached raw client sees the newest publication when idle
             // (for the client libraries the record used is the newest one that explains the answer:
             // if that is not the newest publication, the newest publication does not explain it)
-            if (known.is_some() || law_ok) && !self.cfg.weak && !obs.inflight_at_begin && !obs.pub_began_during && !self.update_in_flight && obs.pubs_at_begin == self.pubs.len() && !obs.recreating_at_begin && !self.recreating {
+            if (known.is_some() || law_ok) && !self.cfg.weak && !obs.inflight_at_begin && !obs.pub_began_during && !self.update_in_flight && obs.pubs_at_begin == self.pubs.len() && !obs.recreating_at_begin && !self.recreating && !self.clients[ci].orphaned {
                 if let Some(newest) = self.pubs.last().cloned() {
                     self.out.probe("judged.raw_client_freshness");
                     // After an in-place re-creation the generation counter starts again at 2. A
